@@ -102,6 +102,10 @@ def jobs(tier, seed):
     js += batches("ctl_sweep", scale(tier, 110, 1500), scale(tier, 5, 25), gen="dag", gseed=seed + 8, p_fail=0.1,
                   P=dict(p_items=0.55, nmax=4, p_join=0.3, p_retry=0.1, p_expr_conc=0.3, xs_max=3), modes=["pause_then_cancel"],
                   name="pause-then-cancel")
+    # remediation loops around a with-items task (its failure leads back to it, directly or through a plain task): every
+    # visit is a new execution with all of its items
+    js += batches("conduct", scale(tier, 96, 960), scale(tier, 12, 48), gen="remloop", gseed=seed + 11, scheds=2, lazy=[0, 60], p_fail=0.35,
+                  name="remediation-loops-around-with-items")
     # the repository's own fixture definitions under generated outcomes, schedules and requests
     js += [dict(fn="corpus", parts=4, part=i, runs=scale(tier, 4, 40), gseed=seed, ctl=dict(req=0.08, max_req=3, reqs=["pausing", "paused", "resuming", "running", "canceling"]), name="corpus") for i in range(4)]
     # decision-shape family (exhaustive in the thorough tier, a rotating slice in the quick tier): every acyclic edge set over 4 tasks with a join x condition succeeded/failed per edge x outcome per task (4128 definitions)
